@@ -862,6 +862,14 @@ func (ex *Exec) execLoop(fr *Frame, loops map[*ssa.BasicBlock]*loopInfo, li *loo
 			ex.spawned, ex.sends = ex.spawned[:nSp], ex.sends[:nSe]
 			continue
 		}
+		// `loop N opt nobreak`: every exit that does not come from the loop's own condition is an obligation
+		if lc.NoBreak {
+			for _, e := range exits {
+				if e.from != h {
+					ex.oblige(fr, e.st, "loop", lname+".nobreak", pos, "the loop is left only when its condition ends it (every element is visited)", False)
+				}
+			}
+		}
 		// final pass: preservation obligations at the latches
 		for _, e := range ctx.latches {
 			over := map[string]Val{}
@@ -880,6 +888,7 @@ func (ex *Exec) execLoop(fr *Frame, loops map[*ssa.BasicBlock]*loopInfo, li *loo
 				// later invariants of this loop are proved under the earlier ones (assert, then assume)
 				ex.assume(e.st, g)
 			}
+			_ = 0
 			// per-iteration clauses: about the calls recorded since the loop head
 			for _, it := range lc.Iters {
 				env := ex.envAt(fr, e.st, h)
